@@ -24,6 +24,10 @@ def parsePrefixes : List String → List Prefix
   | a :: b :: c :: r => { is4 := bool! a, val := nat! b, bits := nat! c } :: parsePrefixes r
   | _ => []
 
+def parseAddrs : List String → List Addr
+  | a :: b :: r => { is4 := bool! a, val := nat! b } :: parseAddrs r
+  | _ => []
+
 def step (s : S) : List String → S × String
   | ["ctr", num, ivl] =>
     ({ s with ctr := Counter.new (nat! num) (int! ivl), ring := Ring.new (nat! num + 1) }, "ok")
@@ -44,6 +48,13 @@ def step (s : S) : List String → S × String
     -- `DynamicAllowlist.Update`: the limiter state is untouched.
     let al := s.al.update (parsePrefixes rest)
     ({ s with al := al, cfg := { s.cfg with allow := al.flat } }, "ok")
+  | "consul" :: ok :: rest =>
+    -- `AllowlistUpdater.Refresh`: `consul 0` = failed refresh, `consul 1 <is4 val>…` = decoded records.
+    let al := s.al.consulRefresh (if bool! ok then some (parseAddrs rest) else none)
+    ({ s with al := al, cfg := { s.cfg with allow := al.flat } }, "ok")
+  | ["age", _] =>
+    -- The harness moved the real limiter's state into the past; for the model this is just time passing.
+    (s, "ok")
   | ["isallowed", is4, val] =>
     (s, showB (s.al.isAllowed { is4 := bool! is4, val := nat! val }))
   | ["libmw", enabled, port0, now, is4, val, qt, len] =>
